@@ -6,11 +6,15 @@ import os
 VERIF = os.path.dirname(os.path.dirname(os.path.abspath(__file__)))
 HB = os.path.join(VERIF, "harness", "bin")
 
-AXIOM_WHITELIST = ()  # every theorem is expected to be closed under the global context
+# Standard-library axioms a theorem may depend on (named in the trusted base, DESIGN.md I.6). Everything else must be
+# closed under the global context. `classic` (Coq.Logic.Classical_Prop, excluded middle) is used by the
+# leader-completeness family Proofs/LC*.v (C01, C04, C07 cluster theorems).
+AXIOM_WHITELIST = ("classic", "Classical_Prop.classic")
+COQCHK_AXIOM_WHITELIST = ("Coq.Logic.Classical_Prop.classic",)
 
 TRUSTED_BASE = [
     "Coq 8.16.1 kernel (coqc full .vo build; coqchk re-check in the thorough tier); vm_compute only in examples; no native_compute",
-    "no Axiom/Parameter/Admitted anywhere (grep gate on every run); Print Assumptions text parsed on every run",
+    "no Axiom/Parameter/Admitted declared anywhere (grep gate on every run); Print Assumptions text parsed on every run: the only axiom any theorem may depend on is the standard library's excluded middle, Coq.Logic.Classical_Prop.classic : forall P : Prop, P \\/ ~ P (used by Proofs/LC*.v: C07 first half, C01 and C04 cluster theorems); any other axiom fails the check",
     "extraction: ExtrOcamlBasic only (bool, option, unit, list, prod, sumbool, sumor -> OCaml; andb/orb/negb/fst/snd inlined); nat/positive/N stay Coq datatypes; no Extract Constant of our own; OCaml 4.13.1; ocaml/driver.ml (parsing/printing of cases)",
     "hand-written model; correspondence established only on the cases explored (Go harness built from /repo with -tags verif, generators, canonicalisation)",
     "constants translator harness/cmd/genconst (field numbers, wire kinds, enum values, String() cases, chunk size, file names)",
